@@ -312,6 +312,15 @@ Proof.
   destruct x as [s|xa]; cbn; auto. apply set_attr_get_ne. specialize (Hl (Ref xa) (or_introl eq_refl)). cbn in Hl. lia.
 Qed.
 
+Lemma fold_set_model_get' : forall n (own : value -> value) l h b,
+    (forall x, In x l -> val_lt n x) -> n <= b ->
+    get (fold_left (fun hh x => set_model_of (own x) hh x) l h) b = get h b.
+Proof.
+  intros n own l. induction l as [|x r IH]; intros h b Hl Hb; cbn; auto.
+  rewrite IH; auto; [|intros; apply Hl; cbn; auto].
+  destruct x as [s|xa]; cbn; auto. apply set_attr_get_ne. specialize (Hl (Ref xa) (or_introl eq_refl)). cbn in Hl. lia.
+Qed.
+
 Lemma dict_keys_lt : forall h ov x, heap_wf h -> (forall d, ov = Some (Ref d) -> d < List.length h) ->
   (forall d c, ov = Some (Ref d) -> get h d = Some c -> forall y, In y (crefs c) -> y < List.length h) ->
   In x (dict_keys h ov) -> val_lt (List.length h) x.
@@ -334,6 +343,11 @@ Proof.
   set (model := match attr rc "_model" with Some v => v | None => None_ end) in *.
   set (mets := dict_keys h (attr rc "_metabolites")) in *.
   set (gns := dict_keys h (attr rc "_genes")) in *.
+  set (own := fun x : value => match x with
+                          | Ref xa => match get h xa with
+                                      | Some c => match attr c "_model" with Some v => v | None => None_ end
+                                      | None => None_ end
+                          | At _ => None_ end) in *.
   set (h3 := fold_left (set_model_of None_) gns (fold_left (set_model_of None_) mets (set_attr h r "_model" None_))) in *.
   destruct (deep_copy T h3 (Ref r)) as [h4 v] eqn:E.
   assert (List.length h3 = n) as Hl3.
@@ -351,10 +365,11 @@ Proof.
     destruct Hl; subst l; eapply Hk; eauto. }
   assert (r < n) as Hrn by (eapply get_lt; eauto).
   assert (forall a c, n <= a ->
-            get (fold_left (set_model_of model) gns (fold_left (set_model_of model) mets (set_attr h4 r "_model" model))) a = Some c ->
+            get (fold_left (fun hh x => set_model_of (own x) hh x) gns
+                   (fold_left (fun hh x => set_model_of (own x) hh x) mets (set_attr h4 r "_model" model))) a = Some c ->
             cell_ok n c) as Hnew.
-  { intros a c Ha Hg. rewrite (fold_set_model_get n) in Hg; auto; [|apply (Hlt gns); auto].
-    rewrite (fold_set_model_get n) in Hg; auto; [|apply (Hlt mets); auto].
+  { intros a c Ha Hg. rewrite (fold_set_model_get' n) in Hg; auto; [|apply (Hlt gns); auto].
+    rewrite (fold_set_model_get' n) in Hg; auto; [|apply (Hlt mets); auto].
     rewrite set_attr_get_ne in Hg by lia. eapply (ext_new _ _ _ HE); eauto. }
   split; [auto|split; [exact Hnew|]].
   intros y Hy. eapply (reach_closed _ (fun z => n <= z)); [|exact Hv|exact Hy].
